@@ -10,7 +10,9 @@ use crate::observe::*;
 use crate::rng::{fnv64, Rng};
 use ruschm::interpreter::LibraryFactory;
 use serde_json::{json, Value};
+use std::cell::RefCell;
 use std::collections::{BTreeMap, BTreeSet};
+use std::rc::Rc;
 use std::path::PathBuf;
 
 pub struct EngineG;
@@ -121,6 +123,33 @@ fn generate_g(seed: u64, _quick: bool) -> Value {
                 forms.insert(at, json!({"t": t, "k": k}));
             }
         }
+        if rng.chance(1, 3) {
+            // a program that assigns or redefines names it got from the bundled libraries: that
+            // is this instance's business only (every other instance keeps the originals, and
+            // so do the bundled procedures written in Scheme)
+            let (spoil, probe) = *rng.pick(&[
+                ("(set! car cdr)", "(car '(1 2 3))"),
+                ("(set! + -)", "(+ 5 3)"),
+                ("(define (append . x) 'mine)", "(append '(1) '(2))"),
+                ("(define (map f l) 'mine)", "(map car '((1) (2)))"),
+                ("(set! vector-ref (lambda (v i) 'mine))", "(vector-ref (vector 1 2) 0)"),
+                ("(set! null? pair?)", "(append '(1 2) '(3))"),
+                ("(define list vector)", "(list 1 2)"),
+            ]);
+            let at = rng.upto(forms.len() + 1);
+            forms.insert(at, json!({"t": spoil, "k": "spoil-base"}));
+            for _ in 0..rng.range(1, 2) {
+                let at2 = at + 1 + rng.upto(forms.len() - at);
+                forms.insert(at2, json!({"t": probe, "k": "probe-base"}));
+            }
+        } else if rng.chance(1, 3) {
+            // ... and programs that only look at those names, while a neighbour may spoil them
+            for _ in 0..rng.range(1, 3) {
+                let probe = *rng.pick(&["(car '(1 2 3))", "(+ 5 3)", "(append '(1) '(2))", "(map car '((1) (2)))", "(vector-ref (vector 1 2) 0)", "(list 1 2)"]);
+                let at = rng.upto(forms.len() + 1);
+                forms.insert(at, json!({"t": probe, "k": "probe-base"}));
+            }
+        }
         if with_libs {
             for _ in 0..rng.range(1, 4) {
                 let at = rng.upto(forms.len() + 1);
@@ -143,6 +172,21 @@ fn generate_g(seed: u64, _quick: bool) -> Value {
             let at = rng.upto(forms.len() + 1);
             let text = if rng.chance(2, 3) { "(car 5)\n" } else { "(define from-file 1)\nfrom-file\n" };
             forms.insert(at, json!({"t": text, "k": "eval-file"}));
+        }
+        if rng.chance(1, 3) {
+            // forms during whose evaluation the embedding program does something else: the
+            // scheduler places forms of OTHER instances (or the creation of one) inside them
+            for _ in 0..rng.range(1, 2) {
+                let at = rng.upto(forms.len() + 1);
+                let t = *rng.pick(&[
+                    "(car (cons (sim-nested 0) '()))",
+                    "((lambda (x) (+ x (sim-nested 0))) 1)",
+                    "(define nested-result (sim-nested 0))",
+                    "(if (= (sim-nested 0) 0) 'went 'skipped)",
+                    "(vector-ref (vector 1 (sim-nested 0)) 1)",
+                ]);
+                forms.insert(at, json!({"t": t, "k": "nest"}));
+            }
         }
         // some instances start empty and import the standard library themselves
         let bare_start = rng.chance(1, 4);
@@ -187,7 +231,35 @@ fn generate_g(seed: u64, _quick: bool) -> Value {
             sched.push(json!({"e": "mk", "i": whos[pick]}));
             made[pick] = true;
         }
-        sched.push(json!({"e": "f", "i": whos[pick], "f": pos[pick]}));
+        let is_nest = progs[whos[pick]]["forms"][pos[pick]]["k"].as_str() == Some("nest");
+        let mut inner: Vec<Value> = vec![];
+        if is_nest {
+            for _ in 0..rng.range(1, 3) {
+                let others: Vec<usize> = (0..whos.len())
+                    .filter(|i| {
+                        *i != pick
+                            && pos[*i] < counts[*i]
+                            && progs[whos[*i]]["forms"][pos[*i]]["k"].as_str() != Some("nest")
+                    })
+                    .collect();
+                if others.is_empty() || rng.chance(1, 4) {
+                    inner.push(json!({"e": "new"}));
+                    continue;
+                }
+                let o = *rng.pick(&others);
+                if !made[o] {
+                    inner.push(json!({"e": "mk", "i": whos[o]}));
+                    made[o] = true;
+                }
+                inner.push(json!({"e": "f", "i": whos[o], "f": pos[o]}));
+                pos[o] += 1;
+            }
+        }
+        if inner.is_empty() {
+            sched.push(json!({"e": "f", "i": whos[pick], "f": pos[pick]}));
+        } else {
+            sched.push(json!({"e": "f", "i": whos[pick], "f": pos[pick], "inner": inner}));
+        }
         pos[pick] += 1;
         if drops && pos[pick] == counts[pick] && rng.chance(1, 2) {
             sched.push(json!({"e": "drop", "i": whos[pick]}));
@@ -238,6 +310,22 @@ fn make_instance(prog: &Value, dir: &PathBuf) -> Result<Inst, crate::hashseed::P
             sys.host.borrow_mut().armed.insert(k.parse().unwrap_or(0), v.as_u64().unwrap_or(0));
         }
     }
+    // a host procedure through which the embedding program does other things in the middle
+    // of an evaluation: here, whatever the schedule placed inside the calling form
+    sys.it.env.define(
+        "sim-nested".to_string(),
+        ruschm::values::Value::Procedure(ruschm::values::Procedure::new_builtin_impure(
+            "sim-nested".to_string(),
+            ruschm::param_fixed!["k"],
+            move |_args, _env| {
+                let hook = NEST_HOOK.with(|h| h.borrow().clone());
+                if let Some(f) = hook {
+                    f();
+                }
+                Ok(ruschm::values::Value::Number(ruschm::values::Number::Integer(0)))
+            },
+        )),
+    );
     sys.it.program_directory = Some(dir.clone());
     let reg = prog["reg_text"].as_str().unwrap_or("").to_string();
     let name = library_name_of(&["iso", "reg"]);
@@ -291,6 +379,174 @@ fn write_file_lib(dir: &PathBuf, text: &str) {
     std::fs::write(d.join("file.sld"), text).expect("write iso/file.sld");
 }
 
+thread_local! {
+    /// set by the interleaved run only: solo reference runs leave `(sim-nested k)` without effect
+    static NEST_HOOK: RefCell<Option<Rc<dyn Fn()>>> = const { RefCell::new(None) };
+}
+
+/// the state of one interleaved run, shared between the scheduler loop and the nesting hook
+#[derive(Default)]
+struct Ctx {
+    progs: Value,
+    dirs: BTreeMap<String, PathBuf>,
+    solo: BTreeMap<String, Vec<String>>,
+    sanity: Vec<String>,
+    insts: BTreeMap<String, Rc<RefCell<Inst>>>,
+    pos: BTreeMap<String, usize>,
+    log: Vec<String>,
+    violation: Option<Violation>,
+    counters: BTreeMap<String, u64>,
+    evaluated_before: u64,
+    last_b_seen: bool,
+    a_between_b: bool,
+    a_since_b: bool,
+    step: usize,
+    depth: usize,
+    /// events to run when the form under evaluation calls `(sim-nested k)`
+    pending_inner: Vec<Value>,
+}
+
+impl Ctx {
+    fn bump(&mut self, k: &str) {
+        *self.counters.entry(k.to_string()).or_insert(0) += 1;
+    }
+}
+
+/// one scheduled event; never holds a borrow of the context while real code runs
+fn run_event(ctx: &Rc<RefCell<Ctx>>, ev: &Value) {
+    let (step, depth) = {
+        let c = ctx.borrow();
+        (c.step, c.depth)
+    };
+    let ind = if depth > 0 { "    (nested) " } else { "" };
+    match ev["e"].as_str() {
+        Some("mk") => {
+            let w = ev["i"].as_str().unwrap_or("").to_string();
+            let (prog, dir) = {
+                let c = ctx.borrow();
+                (c.progs[&w].clone(), c.dirs[&w].clone())
+            };
+            let made = make_instance(&prog, &dir);
+            let mut c = ctx.borrow_mut();
+            let before = c.evaluated_before;
+            match made {
+                Ok(i) => {
+                    c.insts.insert(w.clone(), Rc::new(RefCell::new(i)));
+                    c.log.push(format!("{:>3} {}create instance {} (after {} forms on this thread)", step, ind, w, before));
+                    if before > 0 {
+                        c.bump("probe.instance_created_after_history");
+                    }
+                    if depth > 0 {
+                        c.bump("probe.instance_created_inside_an_evaluation");
+                    }
+                }
+                Err(p) => {
+                    c.log.push(format!("{:>3} {}create instance {} => PANIC {}", step, ind, w, p.signature()));
+                    c.violation = Some(Violation {
+                        signature: "C19/instance-creation-panics".into(),
+                        detail: json!({"step": step, "instance": w, "panic": p.message, "at": format!("{}:{}", p.file, p.line), "forms_evaluated_before": before, "inside_an_evaluation": depth > 0}),
+                    });
+                }
+            }
+        }
+        Some("drop") => {
+            let w = ev["i"].as_str().unwrap_or("").to_string();
+            let gone = ctx.borrow_mut().insts.remove(&w);
+            drop(gone);
+            let mut c = ctx.borrow_mut();
+            c.log.push(format!("{:>3} {}drop instance {}", step, ind, w));
+            c.bump("event.instance_dropped");
+        }
+        Some("new") => {
+            let got = sanity_run();
+            let mut c = ctx.borrow_mut();
+            c.log.push(format!("{:>3} {}create a further instance, sanity program => {:?}", step, ind, got));
+            c.bump("event.further_instance");
+            if depth > 0 {
+                c.bump("probe.instance_created_inside_an_evaluation");
+            }
+            if got != c.sanity {
+                let sig = if got.first().map(|s| s.starts_with("CREATE-PANIC")).unwrap_or(false) {
+                    "C19/instance-creation-panics".to_string()
+                } else {
+                    "C19/new-instance-differs".to_string()
+                };
+                c.violation = Some(Violation {
+                    signature: sig,
+                    detail: json!({"step": step, "expected": c.sanity, "observed": got, "forms_evaluated_before": c.evaluated_before, "inside_an_evaluation": depth > 0}),
+                });
+            }
+        }
+        Some("f") => {
+            let w = ev["i"].as_str().unwrap_or("").to_string();
+            let f = ev["f"].as_u64().unwrap_or(0) as usize;
+            let (form, inst) = {
+                let mut c = ctx.borrow_mut();
+                c.pending_inner = ev["inner"].as_array().cloned().unwrap_or_default();
+                (c.progs[&w]["forms"][f].clone(), c.insts.get(&w).cloned())
+            };
+            let Some(inst) = inst else { return };
+            let t = form["t"].as_str().unwrap_or("").to_string();
+            let k = form["k"].as_str().unwrap_or("").to_string();
+            // an instance that is in the middle of an evaluation is never entered again
+            let got = match inst.try_borrow_mut() {
+                Ok(mut i) => eval_form(&mut i, &form, f),
+                Err(_) => {
+                    ctx.borrow_mut().violation = Some(Violation {
+                        signature: "C19/harness/instance-entered-twice".into(),
+                        detail: json!({"step": step, "instance": w}),
+                    });
+                    return;
+                }
+            };
+            let mut c = ctx.borrow_mut();
+            let unused = std::mem::take(&mut c.pending_inner);
+            c.evaluated_before += 1;
+            let p = *c.pos.entry(w.clone()).or_insert(0);
+            let expected = c.solo[&w].get(p).cloned().unwrap_or_default();
+            c.pos.insert(w.clone(), p + 1);
+            c.log.push(format!("{:>3} {}{} [{}] {} => {} | alone {}", step, ind, w, k, t, got, expected));
+            if depth > 0 {
+                c.bump("probe.form_evaluated_inside_another_instance_s_evaluation");
+            }
+            if !unused.is_empty() && got == expected {
+                // the form did not reach its (sim-nested k): the placed events were not run
+                c.bump("probe.nested_events_not_reached");
+            }
+            if w == "B" {
+                if c.last_b_seen && c.a_since_b {
+                    c.a_between_b = true;
+                }
+                c.last_b_seen = true;
+                c.a_since_b = false;
+            } else {
+                c.a_since_b = true;
+            }
+            if got != expected {
+                let class = if k.starts_with("macro") {
+                    "macro"
+                } else if k.starts_with("lib") {
+                    "library"
+                } else if k.ends_with("-base") {
+                    "bundled-names"
+                } else {
+                    "store"
+                };
+                let sig = if got.starts_with("PANIC") {
+                    format!("C19/panic-only-when-interleaved/{}", class)
+                } else {
+                    format!("C19/result-differs/{}", class)
+                };
+                c.violation = Some(Violation {
+                    signature: sig,
+                    detail: json!({"step": step, "instance": w, "form": t, "alone": expected, "interleaved": got, "inside_an_evaluation": depth > 0}),
+                });
+            }
+        }
+        _ => {}
+    }
+}
+
 fn execute_g(case: &Value) -> RunResult {
     let mut res = RunResult::default();
     let hash_seed = case["hash_seed"].as_u64().unwrap_or(1);
@@ -300,7 +556,23 @@ fn execute_g(case: &Value) -> RunResult {
     // validity of the schedule: an instance is made before its forms, indices ascend
     let mut made: BTreeSet<String> = BTreeSet::new();
     let mut idx: BTreeMap<String, Vec<usize>> = BTreeMap::new();
+    // events in the order in which they take effect; the events placed inside a form come
+    // right after the event of that form (they are over before that form's result exists,
+    // and they never concern the instance that is evaluating)
+    let mut flat: Vec<Value> = vec![];
     for ev in &sched {
+        flat.push(ev.clone());
+        if let Some(inner) = ev["inner"].as_array() {
+            for iv in inner {
+                if iv["inner"].is_array() || (iv["i"].is_string() && iv["i"] == ev["i"]) || iv["e"].as_str() == Some("drop") {
+                    res.invalid = Some("events inside a form: one level, other instances only, no drops".into());
+                    return res;
+                }
+                flat.push(iv.clone());
+            }
+        }
+    }
+    for ev in &flat {
         match ev["e"].as_str() {
             Some("mk") => {
                 made.insert(ev["i"].as_str().unwrap_or("").to_string());
@@ -369,114 +641,50 @@ fn execute_g(case: &Value) -> RunResult {
     }
     // the interleaved run: all instances on one thread
     let sched2 = sched.clone();
-    let progs2 = progs.clone();
-    let dirs2 = dirs.clone();
-    let solo2 = solo_results.clone();
-    let sanity2 = sanity_ref.clone();
-    let inter = on_fresh_thread(hash_seed, move || {
-        let mut log: Vec<String> = vec![];
-        let mut violation: Option<Violation> = None;
-        let mut insts: BTreeMap<String, Inst> = BTreeMap::new();
-        let mut pos: BTreeMap<String, usize> = BTreeMap::new();
-        let mut counters: BTreeMap<String, u64> = BTreeMap::new();
-        ruschm::verif_hooks::set_budget(6_000_000, 20_000);
-        let steps0 = ruschm::verif_hooks::steps();
-        let mut evaluated_before: u64 = 0;
-        let mut last_b_seen = false;
-        let mut a_between_b = false;
-        let mut a_since_b = false;
-        for (step, ev) in sched2.iter().enumerate() {
-            match ev["e"].as_str() {
-                Some("mk") => {
-                    let w = ev["i"].as_str().unwrap_or("").to_string();
-                    match make_instance(&progs2[&w], &dirs2[&w]) {
-                        Ok(i) => {
-                            insts.insert(w.clone(), i);
-                            log.push(format!("{:>3} create instance {} (after {} forms on this thread)", step, w, evaluated_before));
-                            if evaluated_before > 0 {
-                                *counters.entry("probe.instance_created_after_history".into()).or_insert(0) += 1;
-                            }
-                        }
-                        Err(p) => {
-                            log.push(format!("{:>3} create instance {} => PANIC {}", step, w, p.signature()));
-                            violation = Some(Violation {
-                                signature: "C19/instance-creation-panics".into(),
-                                detail: json!({"step": step, "instance": w, "panic": p.message, "at": format!("{}:{}", p.file, p.line), "forms_evaluated_before": evaluated_before}),
-                            });
+    let inter = on_fresh_thread(hash_seed, {
+        let progs2 = progs.clone();
+        let dirs2 = dirs.clone();
+        let solo2 = solo_results.clone();
+        let sanity2 = sanity_ref.clone();
+        move || {
+            ruschm::verif_hooks::set_budget(6_000_000, 20_000);
+            let steps0 = ruschm::verif_hooks::steps();
+            let ctx = Rc::new(RefCell::new(Ctx {
+                progs: progs2,
+                dirs: dirs2,
+                solo: solo2,
+                sanity: sanity2,
+                ..Default::default()
+            }));
+            // what `(sim-nested k)` does on this thread: the events that the schedule placed
+            // inside the form being evaluated
+            let hook_ctx = ctx.clone();
+            NEST_HOOK.with(|h| {
+                *h.borrow_mut() = Some(Rc::new(move || {
+                    let inner: Vec<Value> = std::mem::take(&mut hook_ctx.borrow_mut().pending_inner);
+                    for ev in &inner {
+                        if hook_ctx.borrow().violation.is_some() {
                             break;
                         }
+                        hook_ctx.borrow_mut().depth += 1;
+                        run_event(&hook_ctx, ev);
+                        hook_ctx.borrow_mut().depth -= 1;
                     }
+                }))
+            });
+            for (step, ev) in sched2.iter().enumerate() {
+                ctx.borrow_mut().step = step;
+                run_event(&ctx, ev);
+                if ctx.borrow().violation.is_some() {
+                    break;
                 }
-                Some("drop") => {
-                    let w = ev["i"].as_str().unwrap_or("").to_string();
-                    insts.remove(&w);
-                    log.push(format!("{:>3} drop instance {}", step, w));
-                    *counters.entry("event.instance_dropped".into()).or_insert(0) += 1;
-                }
-                Some("new") => {
-                    let got = sanity_run();
-                    log.push(format!("{:>3} create a further instance, sanity program => {:?}", step, got));
-                    *counters.entry("event.further_instance".into()).or_insert(0) += 1;
-                    if got != sanity2 {
-                        let sig = if got.first().map(|s| s.starts_with("CREATE-PANIC")).unwrap_or(false) {
-                            "C19/instance-creation-panics".to_string()
-                        } else {
-                            "C19/new-instance-differs".to_string()
-                        };
-                        violation = Some(Violation {
-                            signature: sig,
-                            detail: json!({"step": step, "expected": sanity2, "observed": got, "forms_evaluated_before": evaluated_before}),
-                        });
-                        break;
-                    }
-                }
-                Some("f") => {
-                    let w = ev["i"].as_str().unwrap_or("").to_string();
-                    let f = ev["f"].as_u64().unwrap_or(0) as usize;
-                    let form = &progs2[&w]["forms"][f];
-                    let t = form["t"].as_str().unwrap_or("").to_string();
-                    let k = form["k"].as_str().unwrap_or("").to_string();
-                    let inst = insts.get_mut(&w).unwrap();
-                    let got = eval_form(inst, form, f);
-                    evaluated_before += 1;
-                    let p = pos.entry(w.clone()).or_insert(0);
-                    let expected = solo2[&w].get(*p).cloned().unwrap_or_default();
-                    *p += 1;
-                    log.push(format!("{:>3} {} [{}] {} => {} | alone {}", step, w, k, t, got, expected));
-                    if w == "B" {
-                        if last_b_seen && a_since_b {
-                            a_between_b = true;
-                        }
-                        last_b_seen = true;
-                        a_since_b = false;
-                    } else {
-                        a_since_b = true;
-                    }
-                    if got != expected {
-                        let class = if k.starts_with("macro") {
-                            "macro"
-                        } else if k.starts_with("lib") {
-                            "library"
-                        } else {
-                            "store"
-                        };
-                        let sig = if got.starts_with("PANIC") {
-                            format!("C19/panic-only-when-interleaved/{}", class)
-                        } else {
-                            format!("C19/result-differs/{}", class)
-                        };
-                        violation = Some(Violation {
-                            signature: sig,
-                            detail: json!({"step": step, "instance": w, "form": t, "alone": expected, "interleaved": got}),
-                        });
-                        break;
-                    }
-                }
-                _ => {}
             }
+            NEST_HOOK.with(|h| *h.borrow_mut() = None);
+            let steps = ruschm::verif_hooks::steps() - steps0;
+            let mut c = ctx.borrow_mut();
+            c.insts.clear();
+            (std::mem::take(&mut c.log), c.violation.take(), std::mem::take(&mut c.counters), steps, c.a_between_b)
         }
-        let steps = ruschm::verif_hooks::steps() - steps0;
-        (log, violation, counters, steps, a_between_b)
     });
     crate::sandbox::remove_dir(&root);
     match inter {
@@ -513,9 +721,10 @@ fn execute_g(case: &Value) -> RunResult {
             res.invalid = Some(format!("harness panic {} at {}:{}", p.message, p.file, p.line));
         }
     }
-    let pattern: String = sched
+    let pattern: String = flat
         .iter()
         .map(|e| match e["e"].as_str() {
+            Some("f") if e["inner"].is_array() => format!("{}nest[{}]", e["i"].as_str().unwrap_or(""), e["inner"].as_array().map(|a| a.len()).unwrap_or(0)),
             Some("f") => format!(
                 "{}{}",
                 e["i"].as_str().unwrap_or(""),
